@@ -14,7 +14,7 @@ Bad(r) ==
   IF r.kind = "opts"
   THEN LET e == ReadOpts(r.text, r.o) IN
        IF e.err THEN {}                 \* pandas raises on the whole file: there is no frame to compare with (don't-care)
-       ELSE IF r.obs.raised THEN {"Raised"}
+       ELSE IF r.obs.raised THEN (IF e.lax THEN {} ELSE {"Raised"})
        ELSE Clause("Header", r.obs.hdr = e.hdr) \cup Clause("Rows", r.obs.rows = e.rows)
   ELSE IF r.obs.raised THEN {"Raised"}
   ELSE IF r.kind = "blocks"
